@@ -106,7 +106,19 @@ def _strategy(draw):
         mk[2 * i]["price"] = "pm_hi%d" % i
         mk[2 * i + 1]["price"] = "pm_lo%d" % i
     assets += mk
-    return {"grid": g, "prices": cx.prices, "assets": assets, "variant": variant, "excluded_known": excluded}
+    ints = draw(st.integers(0, 3)) == 0
+    if ints and draw(st.booleans()):
+        # whole-number size and start level written as integers next to a fractional end level
+        for a in assets:
+            if a["type"] == "storage" and not a.get("block") and not a.get("freq") and not a.get("periodicity") \
+                    and a.get("max_store_duration") is None:      # (holding time: start level 0 only, see ASSUMPTIONS)
+                a["size"] = float(max(2, round(a["size"])))
+                a["start_level"] = float(draw(st.integers(0, int(a["size"]) - 1)))
+                a["end_level"] = min(a["size"], a["start_level"] + draw(st.sampled_from([0.5, 0.25, 1.5, -0.5])))
+                a["end_level"] = max(0.0, a["end_level"])
+                if draw(st.booleans()):
+                    a["inflow"] = 0.0
+    return {"grid": g, "prices": cx.prices, "assets": assets, "variant": variant, "excluded_known": excluded, "ints": ints}
 
 
 def d7_class(a, T):
